@@ -42,7 +42,9 @@ def run_check(tier, seed):
         c["extra"] = extra
         inp = next(texts).encode() if c.get("stdin_obj") else None
         c["stdin_text"] = inp
-        cmds.append(([c["cmd"]] + c["argv"] + extra, inp))
+        # one case in seven also runs with -v: logging goes to stderr, stdout stays exactly the one line (the model has no logging)
+        c["verbose"] = (len(cmds) % 7 == 3)
+        cmds.append(([c["cmd"]] + (["-v"] if c["verbose"] else []) + c["argv"] + extra, inp))
     t0 = time.time()
     times = {}
     outs = run_procs(cmds, times=times)
@@ -54,7 +56,7 @@ def run_check(tier, seed):
     produced = []
     for c, (rc, out, err), m in zip(cases, outs, mo):
         st["cases"] += 1
-        desc = {"argv": [c["cmd"]] + c["argv"] + c["extra"], "stdin": (c["stdin_text"] or b"").decode("utf-8", "replace")[:1500]}
+        desc = {"argv": [c["cmd"]] + (["-v"] if c.get("verbose") else []) + c["argv"] + c["extra"], "stdin": (c["stdin_text"] or b"").decode("utf-8", "replace")[:1500]}
         model_reply = m[0]
         if panicked(rc, err):
             run.add_violation("oracle", {"stream": "binary", "what": "panic", "described": desc, "rc": rc, "stderr": err.decode("utf-8", "replace")[-600:]}, True)
